@@ -19,6 +19,13 @@ CLAIMED = {
          "(layout from docs/xml.md) on the real text and by the extracted decoder written from docs/xml.md (Spec/XmlSpec.v); reader direction by documents of an independent writer (UUID referents, shuffled properties, Meta/External, CDATA, "
          "wrapped base64, alternative float spellings, dictionary first) against the logical DOM they describe.", "5/C05, notes/xml-format.md",
          "Agreement of xspec_decode with xml_encode for arbitrary DOMs is not proved (checked per case); same oracle-table / xml-rs / size-cap assumptions as C02."),
+ "C06": ("Schema level proved: both codecs' descriptor lookups agree on every coherent database (same canonical and serialized descriptor; only DoesNotSerialize differs), and the bundled database is coherent (regenerated and re-proved every run). "
+         "Value level decided per case on the implementation: DOMs inside the property's quantifier are written by rbx_binary and rbx_xml, read back by both real readers and the two decoded DOMs compared instance by instance.", "5/C06",
+         "PARTIAL: the value-level agreement of the two decoders is exercised, not proved (it would be the composition of the C01 and C02 forest theorems, which are not proved at forest level)."),
+ "C15": ("Proved about the migration function over tables regenerated from migration.rs / brick_color.rs and the regenerated database: the migrated value is a function of the legacy value alone (the four paths call one function), result types, "
+         "totality for both booleans, every URI and every BrickColor of the table; refutation for Enum.Font items above 45 (known finding); 12 Migrate pairs. The four real paths are exercised for all pairs x values x presence/order of the new property "
+         "(XML write/read via xmlfile-run stream mig; binary via binfile-run).", "5/C15",
+         "PARTIAL: path agreement and explicit-wins are decided per case on the implementation; the Coq models of the writers/readers contain the migration steps (XmlFile.v, BinFile.v) but no four-path theorem is proved."),
  "C09": ("Invariant over all operation histories: `Rep` (concrete table = flattening of a duplicate-free rose forest) implies every clause of the property (rep_wf), "
          "and is preserved by each operation (refinement lemmas); the concrete model of dom.rs is compared with the real WeakDom after every step of generated histories, "
          "and a Rust oracle of the clause list runs on the real DOMs.", "5/C09, A3",
